@@ -252,3 +252,5 @@ CHECKS["C08"]["packages"] = ["l2node", "schedh"]
 _also("C08", technique="deviation-bounded scheduler enumeration (validation update vs the resumed transport's next block report)", rule="scheduler cells: a channel paused at its limit gets a limit-raising update while the transport, the moment it is resumed, reports the block that reaches the new limit; <=1 (thorough 3) preemptions at lock granularity + the resume point: the report returns the pause signal and the channel ends recorded as paused.")
 CHECKS["C14"]["packages"] = ["l2monitor", "schedh", "l2node"]
 _also("C14", rule="manager level (monitoring on, accept timeout on the virtual clock): the responder's acceptance handled while the opening call is still handing the request to the network / transport, right after it returned, or never: an accepted channel is never closed by the accept timeout, an unaccepted one is closed once.")
+CHECKS["C01"]["packages"] = ["l3e2e", "l2node"]
+_also("C01", rule="manager level: the responder's completion with the Complete message held in the network send while the application issues each accepting validation update: an un-paused Complete is only announced by a responder that then settles in Completed.")
